@@ -33,9 +33,16 @@ TOKENCH = u"abcxyzABC019-_.!#$%&'*+^`|~"
 SEPS = u'()<>@,;:\\"/[]?={} \t'
 
 
+ENCODED_WORD_LOOKALIKES = [u'=?utf-8?q?a?=', u'=?utf-8?q?a?= =?utf-8?q?b?=', u'see =?utf-8?q?y?=', u'=?iso-8859-1?q?bar?=', u'=?utf-8?b?4oaS?=;=?utf-8?b?4oaS?=',
+	u'=?utf-8?q?foo?= (=?iso-8859-1?q?bar?=).txt', u'=?', u'a=?b?=', u'=?x?=, =?utf-8?q?y?=']
+
+
 def value_text(rng):
 	n = rng.choice((0, 1, 1, 2, 3, 5, 9))
 	mode = rng.randrange(6)
+	if rng.random() < 0.04:
+		# text that looks like an RFC 2047 encoded word: literal text inside a parameter value
+		return rng.choice(ENCODED_WORD_LOOKALIKES)
 	out = []
 	for _ in range(n):
 		if mode == 0:
@@ -59,6 +66,7 @@ def params(rng):
 	return ps
 
 
+COOKIE_DATES = [u'Thu, 31 Dec 2015 16:02:17 GMT', u'Mon, 21-Mar-2016 11:58:57 GMT', u'Sunday, 06-Nov-94 08:49:37 GMT', u'Wed, 09 Jun 2021 10:18:14 GMT']
 KINDS = ['generic', 'ctype', 'cdisp', 'cookie', 'setcookie']
 
 
@@ -80,6 +88,9 @@ def gen_element(rng, kind):
 		else:
 			for k in ('expires',):
 				ps.pop(k, None)
+			if rng.random() < 0.6:
+				# the one comma a Set-Cookie list must not split at: the date of the expires attribute
+				ps[u'expires'] = rng.choice(COOKIE_DATES)
 	return (kind, v, tuple(sorted(ps.items())))
 
 
@@ -93,7 +104,7 @@ def cases(rng, tier):
 		kind = rng.choice(KINDS)
 		yield ('el', gen_element(rng, kind))
 		if rng.random() < 0.4:
-			yield ('list', tuple(gen_element(rng, 'cookie' if kind in ('cookie', 'setcookie') else 'generic') for _ in range(rng.randrange(1, 4))))
+			yield ('list', tuple(gen_element(rng, kind if kind in ('cookie', 'setcookie') else 'generic') for _ in range(rng.randrange(1, 5))))
 	for _ in range(n):
 		k = rng.choice((1, 3, 6, 10, 18))
 		yield ('wire', bytes(rng.choice(b'ab;;==""\\\\ ,*\'012%C3%A9utf-8\xe9') for _ in range(k)))
@@ -175,9 +186,19 @@ def impl_lines(case):
 		return [' '.join(hx(p) for p in parts) if parts else '()']
 
 
+def guard2047(text):
+	"""HeaderElement.decode_rfc2047_charset's own test for "this element carries encoded words" """
+	return b'=?' in text and b'"=?' not in text and b'==?' not in text
+
+
 def classify(els):
 	"""known-finding class of an element list, or None"""
 	fid = None
+	try:
+		if any(guard2047(bytes(make(e))) for e in els):
+			return 'F56'
+	except Exception:
+		pass
 	for kind, v, ps in els:
 		vt = v if isinstance(v, str) else v[0] + v[1]
 		try:
@@ -199,6 +220,8 @@ def classify(els):
 			if kind in ('cookie', 'setcookie'):
 				# cookie attributes are never quoted: ';', ',' (the list separator) and '"' cannot be carried;
 				# backslashes and everything else travel verbatim
+				if k == u'expires' and val in COOKIE_DATES:
+					continue         # SetCookie.split protects the comma of an expires date
 				if u';' in val or u'"' in val or u',' in val:
 					return 'F33'
 			elif u'"' in val or u'\\\\' in val:
